@@ -14,3 +14,4 @@ pub mod c11;
 pub mod c13;
 pub mod c12;
 pub mod c14;
+pub mod c15;
